@@ -97,8 +97,8 @@ PROPS = {
     explanation='Closed theorems for every router the model reaches by any history (C15_reachable_tree_is_ordered_and_alive, C15_shape_of_a_wf_tidy_node): literal siblings have non-empty prefixes with pairwise different first bytes and are strictly sorted; siblings of each parameter kind are strictly sorted by (name, constraint); no empty node exists below the root, so every leaf is marked; catch-all nodes carry data and have no children. Kind order is fixed by the printer (Model/Display.v, matched against the real Display on every dump). NOT proved: maximal compression of literal chains and that the routes of the tree are exactly the live routes - decided by canonical_b and routes_same (against the registry built with the independent grammar) on every real dump, and by the Display channel (model printer incl. from_utf8_lossy on the real dump = to_string()).'),
  'C16': dict(level='other', scenarios=[('clone', 1800, 45000)],
     primary=['DumpOf', 'SpecDelete', 'SpecInsert', 'WalkPriority', 'WalkGenuine', 'WalkMissed', 'Roundtrip'], secondary=['OpsDelete', 'OpsInsert', 'OpsSearch', 'Tree'],
-    nontrivial=dict(stat=lambda s: False, line=lambda l: l.startswith('dumpof ') and ' D ' in l),
-    rule='families of routers related by clone; every router dumped after every operation on any member; non-trivial = distinct non-empty dump of a family member observed after an operation on another member or a clone',
+    nontrivial=dict(stat=lambda s: False, line=lambda l: (l.startswith('dumpof ') and ' D ' in l) or (l.startswith('arcs ') and len({x for x in l.split()[2::4]}) >= 2)),
+    rule='families of routers related by clone; every router dumped after every operation on any member; non-trivial = distinct non-empty dump of a family member observed after an operation on another member or a clone, or distinct shared-data view with shared nodes in at least two routers',
     explanation='The model is functional, so a family of routers related by clone is a list and independence holds by construction (C16_* closed, deliberately small). What the model cannot represent is Arc aliasing between a router and its clone (the defect repaired by 93e6281). That is decided by the clone scenario: every family member is dumped after every operation on any member and must be unchanged (DumpOf), every operation on a clone is matched against the model one step from the real state and judged by insert_spec/delete_spec and W.'),
  'C17': dict(level='other', scenarios=[('oci', 12000, 300000), ('ocinamex6', 1, 1)],
     primary=['Oci', 'OciName'], secondary=['OciModel'],
@@ -260,5 +260,21 @@ PROPS['C04']['explanation'] = (_c04[:_cut] if _cut >= 0 else _c04) + (' SIDE BY 
     'expansions have pairwise different part sequences, the router holding it and the router into which its expansion texts were inserted one by one with the same data return, for every path and '
     'constraint predicate, the same match up to relabel: the grouped router reports (template, Some expansion text), the other (expansion text, None), with equal parameters, depth, length, data '
     '(walk_mapf: the walk only reads the two ranking fields of an info; W_perm; one_by_one_spec). The groups scenario compares the two real routers on the same paths through the oracle W.')
+
+PROPS['C16']['level'] = 'proof'
+PROPS['C16']['secondary'] = PROPS['C16']['secondary'] + ['Arcs']
+PROPS['C16']['rule'] += ('; after every new/insert/delete/clone the Arc address and strong count of every shared node of every router of the family (verif hook) '
+    'is compared, up to the names of the Arcs, with the model step (Model/Arcs.v astep) applied to the previous real view, own_b is evaluated on it, and a delete that reached the removal loop must hand the data back iff the model says so (Arcs)')
+PROPS['C16']['explanation'] = ('Closed theorems in two layers (Properties/C16.v). VALUE LAYER (Proofs/FamilyP.v): for every family history of insert/delete/constraint/clone/new over any number of routers, '
+    'every router of the family IS the router its own history builds (C16_family_member_is_its_own_history: the history of a slot is what was applied to it and, before its clone, to its ancestors); a clone equals its '
+    'original at the moment of cloning; a call on one router leaves every other unchanged; with C05: a family member answers every search, prints, and reacts to the next call exactly like a router built '
+    'independently with the same live templates (C16_family_member_behaves_as_independently_built, C16_next_call_behaves_as_on_the_independent_router). SHARING LAYER (Model/Arcs.v, Proofs/ArcsP.v) - the part values '
+    'cannot show: a view lists for every stored node holding NodeData::Shared its router, template, Arc and strong count; insert (one Arc, k holders), delete (holders dropped/unwrapped in order, try_unwrap succeeds '
+    'at count 1), clone (NodeData::clone: a fresh Arc per copied node; the replaced router is dropped) and drop are steps on it. Proved for EVERY history: every Arc is held by nodes of one template in one router '
+    'and its count is the number of holders (C16_every_arc_has_one_owner, by induction over the steps); hence delete always gets the data back (C16_delete_hands_the_data_back) and a step leaves the views of all '
+    'other routers unchanged, counts included (C16_step_leaves_other_routers_views_unchanged). C16_shared_clone_refuted: with the derived Clone of the pinned commit (same Arcs in both routers) the invariant and the '
+    'delete result fail on "/a(/b)" - the defect repaired by 93e6281. Tie to the code: value layer by the one-step correspondence on every router of clone families (DumpOf, Tree, Ops*, Spec*, Walk*); sharing layer '
+    'by the arcs lines: Arc::as_ptr / Arc::strong_count of every shared node read through the hook after every mutating call and compared with the model step on the previous REAL view (Arcs). '
+    'Partial, named: the view abstracts the tree (which node holds which Arc is taken from the dump, not re-derived), and memory reclamation itself (Arc drop, allocator) is std code outside the model.')
 
 NOT_APPLICABLE = {}
